@@ -17,6 +17,8 @@ OBLIGATIONS = [
     (P + "http_buffer_eq_stream", "HTTP: read-ahead buffer + generated parser::step() with getc/ungetc + total_read_ + body drained once + keep-alive leftovers = stream-level result whenever header sections fit the 16 KiB cap"),
     (P + "segmentation_independent_http", "HTTP: segmentation independence for all byte streams whose header sections fit the cap (the unrestricted statement is false of the code and recorded as such)"),
     (P + "limits_admit_wf", "the three 16 KiB limits regenerated from the source are the bound used in the well-formedness predicates (16384)"),
+    (P + "fcgi_roundtrip", "FastCGI round trip: WF request, name-value block cut into PARAMS records anywhere, body cut into STDIN records anywhere, any padding 0..255, either length encoding, any segmentation -> exactly the peer's environment and body stream reach the request layer"),
+    (P + "frontends_agree_scgi_fcgi", "the same environment and body over SCGI and over FastCGI (any framing/segmentation) have the same fate"),
     (P + "scgi_roundtrip", "SCGI round trip: WF request encoded by the peer, any segmentation -> exactly the peer's environment (pairs, order) and body stream reach the request layer"),
 ]
 OBLIGATIONS_FILE = os.path.join(HERE, "c01_obligations.json")
